@@ -65,7 +65,7 @@ PROFILES = {
     'C12': dict(weights=_w(dump=10, load=14, manager_roundtrip=2, apply=8,
                            declare=2, gc=2, swap=4, reorder=1, drop=5),
                 flavors=['raw', 'autoref'], nv=(1, 6), steps=(20, 90),
-                m1_rate=0.3, disk_faults=0.5),
+                m1_rate=0.3, disk_faults=0.5, real_disk=dict(quick=0.03, thorough=0.06)),
     'C13': dict(weights=_w(image=20, apply=10, pairs=4, swap=3, gc=1, reorder=0),
                 flavors=['raw', 'autoref'], nv=(2, 7), steps=(15, 70)),
     'C14': dict(weights=_w(declare=10, undeclare=10, apply=8, drop=8, gc=6,
@@ -88,8 +88,38 @@ PROFILES = {
 }
 
 
-def make_cfg(prop, seed, tier='quick', idx=0):
-    """Swarm configuration of one run: a pure function of (prop, seed, tier)."""
+# position sweeps (thorough tier; the crash-point idiom): 16 consecutive run
+# indices out of every 64 share one seeded prefix history and one final
+# operation, and differ only in where the fault is placed
+SWEEP = {
+    'C09': 'arm',      # the trigger fires after j = 0..15 further creations
+    'C08': 'final',    # finalizers run at the k-th pre-emption point
+    'C12': 'disk',     # byte / line position of a disk fault
+    'C17': 'disk',
+}
+SWEEP_POS = [0, 1, 2, 3, 5, 8, 13, 21, 34, 55, 89, 144, 233, 377, 610, 987]
+
+
+def make_cfg(prop, seed, tier='quick', idx=0, vseed=0):
+    """Swarm configuration of one run: a pure function of its arguments."""
+    if tier == 'thorough' and prop in SWEEP and idx % 64 < 16:
+        gseed = prng.mix(vseed, prop, 'sweep', idx // 64)
+        cfg = _make_cfg(prop, gseed, tier, idx)
+        cfg.pop('dense', None)
+        cfg['sweep'] = dict(kind=SWEEP[prop], index=idx % 64, group=idx // 64)
+        cfg['gen_seed'] = gseed
+        if SWEEP[prop] == 'arm':
+            cfg['dyn'] = True
+            cfg['weights']['arm'] = 0
+            if not cfg.get('knobs'):
+                cfg['knobs'] = dict(starts=1, factor=2, growth=2)
+        if SWEEP[prop] == 'disk':
+            cfg['disk_faults'] = False
+        return cfg
+    return _make_cfg(prop, seed, tier, idx)
+
+
+def _make_cfg(prop, seed, tier='quick', idx=0):
     P = PROFILES[prop]
     r = prng.stream(seed, 'cfg')
     nv = r.randint(*P['nv'])
@@ -143,6 +173,9 @@ def make_cfg(prop, seed, tier='quick', idx=0):
         copy_copy=bool(P.get('copy_copy')) and r.random() < P['copy_copy'],
         sift_tiny=bool(P.get('sift_tiny')), doc_cases=doc_cases,
     )
+    if P.get('real_disk') and r.random() < P['real_disk'].get(tier, 0.0):
+        cfg['real_disk'] = True
+        cfg['disk_faults'] = False
     if prop in DENSE and r.random() < DENSE_RATE.get(tier, 0.0):
         d = dict(DENSE[prop])
         d.update(kind=prop, block=idx, bg_rate=r.choice([0.0, 0.1, 0.2, 0.35]), pos_x=0, pos_xp=1)
